@@ -583,6 +583,8 @@ class Group(System):
         self._subsystems_allprocs = self._static_subsystems_allprocs.copy()
         self._manual_connections = self._static_manual_connections.copy()
         self._group_inputs = self._static_group_inputs.copy()
+        # (every group, not only the model: the connections may have changed since the last setup)
+        self._sys_graph_cache = None
 
         if self.pathname == '':
             self._conn_graph = AllConnGraph()
